@@ -819,6 +819,117 @@ fn run_dearmor_consumers(ctx: &mut Ctx, key: &SignedSecretKey) {
     }
 }
 
+/// a `BufRead` whose `fill_buf` hands out exactly the given pieces, one after the other
+#[derive(Debug)]
+struct PieceSource {
+    pieces: Vec<Vec<u8>>,
+    i: usize,
+    off: usize,
+}
+
+impl std::io::Read for PieceSource {
+    fn read(&mut self, buf: &mut [u8]) -> std::io::Result<usize> {
+        use std::io::BufRead;
+        let avail = self.fill_buf()?;
+        let k = avail.len().min(buf.len());
+        buf[..k].copy_from_slice(&avail[..k]);
+        self.consume(k);
+        Ok(k)
+    }
+}
+
+impl std::io::BufRead for PieceSource {
+    fn fill_buf(&mut self) -> std::io::Result<&[u8]> {
+        while self.i < self.pieces.len() && self.off >= self.pieces[self.i].len() {
+            self.i += 1;
+            self.off = 0;
+        }
+        if self.i >= self.pieces.len() {
+            return Ok(&[]);
+        }
+        Ok(&self.pieces[self.i][self.off..])
+    }
+    fn consume(&mut self, amt: usize) {
+        self.off += amt;
+    }
+}
+
+/// armor written by hand (RFC 9580 6.2: any line width up to 76, LF or CR LF line endings) and read
+/// from sources that deliver it line by line, octet by octet, in fixed pieces or at once: the decoded
+/// octets do not depend on where the source cuts (oracle only)
+fn run_dearmor_sources(ctx: &mut Ctx) {
+    use pgp::armor::Dearmor;
+    use super::c10::{b64_rfc, crc24_rfc};
+    let mut rng = ChaCha8Rng::seed_from_u64(ctx.seed ^ 0xC09E);
+    let widths: &[usize] = if ctx.thorough() { &[1, 2, 3, 4, 5, 6, 7, 8, 12, 63, 64, 65, 76] } else { &[1, 2, 3, 4, 5, 8, 64, 76] };
+    for n in [1usize, 2, 3, 4, 5, 6, 7, 9, 12, 47, 48, 49, 200] {
+        let data: Vec<u8> = (0..n).map(|_| rng.gen()).collect();
+        let b64 = b64_rfc(&data);
+        let crc = crc24_rfc(&data);
+        let crc_line = [&b"="[..], &b64_rfc(&[(crc >> 16) as u8, (crc >> 8) as u8, crc as u8])[..]].concat();
+        for &w in widths {
+            for eol in [&b"\n"[..], b"\r\n"] {
+                // the document as a list of lines (each with its line ending)
+                let mut lines: Vec<Vec<u8>> = Vec::new();
+                let mut push = |l: &[u8]| lines.push([l, eol].concat());
+                push(b"-----BEGIN PGP MESSAGE-----");
+                push(b"");
+                for l in b64.chunks(w) {
+                    push(l);
+                }
+                push(&crc_line);
+                push(b"-----END PGP MESSAGE-----");
+                let doc: Vec<u8> = lines.concat();
+                let mut schedules: Vec<(String, Vec<Vec<u8>>)> = vec![("whole".into(), vec![doc.clone()]), ("line by line".into(), lines.clone())];
+                for k in [1usize, 2, 3, 5, 7, 64] {
+                    schedules.push((format!("pieces of {k}"), doc.chunks(k).map(|c| c.to_vec()).collect()));
+                }
+                // two lines per piece, and cuts between CR and LF
+                schedules.push(("two lines per piece".into(), lines.chunks(2).map(|c| c.concat()).collect()));
+                if eol.len() == 2 {
+                    let mut pieces: Vec<Vec<u8>> = Vec::new();
+                    let mut carry: Vec<u8> = Vec::new();
+                    for l in &lines {
+                        let mut p = std::mem::take(&mut carry);
+                        p.extend_from_slice(&l[..l.len() - 1]);
+                        pieces.push(p);
+                        carry = vec![b'\n'];
+                    }
+                    pieces.push(carry);
+                    schedules.push(("cut between CR and LF".into(), pieces));
+                }
+                let mut seen: Vec<(String, String)> = Vec::new();
+                for (name, pieces) in &schedules {
+                    let r = guarded(|| {
+                        let mut d = Dearmor::new(PieceSource { pieces: pieces.clone(), i: 0, off: 0 });
+                        let mut out = Vec::new();
+                        match d.read_to_end(&mut out) {
+                            Ok(_) => format!("ok:{}", hx(&out)),
+                            Err(e) => format!("err:{e}"),
+                        }
+                    });
+                    seen.push((name.clone(), r.unwrap_or_else(|p| format!("panic {p}"))));
+                }
+                let want = format!("ok:{}", hx(&data));
+                let all = seen.iter().all(|(_, v)| *v == want);
+                // (a `Key: Value` armor header line split over two `fill_buf` views is known finding D10b of
+                //  C10; these documents carry no header lines)
+                let same = seen.iter().all(|(_, v)| *v == seen[0].1);
+                let line_safe: Vec<&(String, String)> = seen.iter().filter(|(n, _)| n == "whole" || n == "line by line" || n == "two lines per piece").collect();
+                let ok_line_safe = line_safe.iter().all(|(_, v)| *v == want);
+                ctx.oracle(
+                    "dearmor_independent_of_source_pieces",
+                    "armor::Dearmor over sources that deliver lines / fixed pieces",
+                    &format!("payload={} line_width={w} eol={} doc={}", hx(&data), if eol.len() == 2 { "CRLF" } else { "LF" }, hx(&doc)),
+                    all && ok_line_safe,
+                    &format!("{:?}", seen.iter().filter(|(_, v)| *v != want).collect::<Vec<_>>()),
+                );
+                ctx.stat(if all { "dearmor_sources:all_schedules_decode" } else if same { "dearmor_sources:all_schedules_agree" } else { "dearmor_sources:piece_schedules_differ" });
+            }
+        }
+    }
+}
+
 /// the file sinks of the builder (`to_file`, `to_armored_file`): the file holds exactly what
 /// `to_writer` / `to_armored_writer` produce — also when a longer file was there before — and a sink
 /// that cannot take the data (`/dev/full`) is an error (oracle only)
@@ -1207,6 +1318,7 @@ pub fn run(ctx: &mut Ctx) {
     run_alg_sweep(ctx, &key);
     run_fault_kinds(ctx, &key);
     run_dearmor_consumers(ctx, &key);
+    run_dearmor_sources(ctx);
     run_next_hdr(ctx);
     run_fill_buffer_intr(ctx);
     run_file_sinks(ctx, &key);
